@@ -558,6 +558,8 @@ class Interp:
             else:
                 raise Unsupported("ordering of %r and %r" % (l, r))
             return {"<": a < b, "<=": a <= b, ">": a > b, ">=": a >= b}[op]
+        if op == "+" and isinstance(l, str) and isinstance(r, str):
+            return l + r                  # String + &str
         if op in ("+", "-", "*") and isinstance(l, int) and isinstance(r, int) and not isinstance(l, bool):
             v = {"+": l + r, "-": l - r, "*": l * r}[op]
             if v < 0:
